@@ -207,3 +207,394 @@ def asrc(fi: FuncInfo) -> str:
 def A(pattern: str) -> str:
     """Normalise a pattern the same way as asrc (spaces removed)."""
     return pattern.replace(" ", "")
+
+
+def L(fi: FuncInfo, node: ast.AST | None) -> str:
+    """Anonymised text of an expression of ``fi``: locals and parameters read as ``_``, spaces removed.
+
+    Rules compare against this (with ``A("...")``) instead of raw source text, so that renaming a local never
+    changes a verdict."""
+    return "" if node is None else anon_text(node, fi.node)
+
+
+def key_test(test: ast.AST, is_subject) -> tuple[frozenset[str], bool] | None:
+    """An atomic test that compares the dispatch subject with constant keys.
+
+    Returns (keys, positive): the test is true iff subject in keys (positive) / not in keys (not positive)."""
+    if not isinstance(test, ast.Compare) or len(test.ops) != 1:
+        return None
+    left, op, right = test.left, test.ops[0], test.comparators[0]
+    if isinstance(op, (ast.Eq, ast.Is, ast.NotEq, ast.IsNot)):
+        if is_subject(left):
+            other = right
+        elif is_subject(right):
+            other = left
+        else:
+            return None
+        return frozenset([ast.unparse(other)]), isinstance(op, (ast.Eq, ast.Is))
+    if isinstance(op, (ast.In, ast.NotIn)) and is_subject(left) and isinstance(right, (ast.Tuple, ast.List, ast.Set)):
+        return frozenset(ast.unparse(e) for e in right.elts), isinstance(op, ast.In)
+    return None
+
+
+class Dispatch:
+    """Partial evaluation of a function over one dispatch subject (``x == K`` / ``x is K`` / ``x in (K1, K2)`` tests).
+
+    ``under(K)`` = CFG nodes reachable when the subject equals K; ``under(None)`` = when it equals none of the keys
+    the function mentions.  Independent of if/elif orientation, nesting, early returns and branch order."""
+
+    def __init__(self, fn: ast.AST, is_subject=None, classify=None, extra=None) -> None:
+        self.g = build_cfg(fn)
+        self.extra = extra  # optional: fixed outcome (True / False) for tests that are not key tests
+        self.tests: dict[int, tuple[frozenset[str], bool]] = {}
+        for n in self.g.nodes:
+            if n.kind == "test" and n.ast is not None:
+                kt = classify(n.ast) if classify is not None else key_test(n.ast, is_subject)
+                if kt is not None:
+                    self.tests[n.id] = kt
+        self.keys: set[str] = set().union(*[k for k, _ in self.tests.values()]) if self.tests else set()
+
+    def under(self, key: str | None) -> list[Node]:
+        def decide(n: Node) -> bool | None:
+            kt = self.tests.get(n.id)
+            if kt is None:
+                return self.extra(n.ast) if self.extra is not None and n.ast is not None else None
+            keys, positive = kt
+            return (key in keys) == positive
+
+        ids = self.g.reach_assuming(decide)
+        return [n for n in self.g.nodes if n.id in ids]
+
+    def specific(self, key: str | None) -> list[Node]:
+        """Nodes reachable under ``key`` but not under every other key / the default."""
+        mine = {n.id for n in self.under(key)}
+        others = [k for k in [*sorted(self.keys), None] if k != key]
+        common = set(mine)
+        for k in others:
+            common &= {n.id for n in self.under(k)}
+        return [n for n in self.g.nodes if n.id in mine - common]
+
+
+def dict_literals(nodes) -> list[dict[str, str]]:
+    """Constant-keyed dict literals (key -> value source text) in the statements of the given CFG nodes."""
+    out: list[dict[str, str]] = []
+    for n in nodes:
+        if n.ast is None or n.kind == "test":
+            continue
+        for sub in ast.walk(n.ast):
+            if isinstance(sub, ast.Dict) and any(isinstance(k, ast.Constant) for k in sub.keys):
+                out.append({k.value: ast.unparse(v) for k, v in zip(sub.keys, sub.values) if isinstance(k, ast.Constant)})
+    return out
+
+
+def single_defs(fn: ast.AST) -> dict[str, ast.expr]:
+    """Locals assigned exactly once in ``fn`` by a plain (annotated) assignment: name -> value expression."""
+    cached = getattr(fn, "_xsa_single_defs", None)
+    if cached is not None:
+        return cached
+    count: dict[str, int] = {}
+    value: dict[str, ast.expr] = {}
+    params = set()
+    if isinstance(fn, (ast.FunctionDef, ast.AsyncFunctionDef)):
+        a = fn.args
+        params = {x.arg for x in [*a.posonlyargs, *a.args, *a.kwonlyargs, *([a.vararg] if a.vararg else []), *([a.kwarg] if a.kwarg else [])]}
+    for st, tgt, val in stores(fn):
+        if isinstance(tgt, ast.Name):
+            count[tgt.id] = count.get(tgt.id, 0) + 1
+            if isinstance(st, (ast.Assign, ast.AnnAssign)) and val is not None and not (isinstance(st, ast.Assign) and isinstance(st.targets[0], (ast.Tuple, ast.List))):
+                value[tgt.id] = val
+            else:
+                count[tgt.id] += 1  # loop targets, augmented stores, unpacking: not a single definition
+    for n in walk_no_nested(fn):
+        if isinstance(n, (ast.With, ast.AsyncWith)):
+            for it in n.items:
+                if isinstance(it.optional_vars, ast.Name):
+                    count[it.optional_vars.id] = count.get(it.optional_vars.id, 0) + 2
+        elif isinstance(n, ast.ExceptHandler) and n.name:
+            count[n.name] = count.get(n.name, 0) + 2
+    out = {k: v for k, v in value.items() if count.get(k) == 1 and k not in params}
+    try:
+        fn._xsa_single_defs = out  # type: ignore[attr-defined]
+    except AttributeError:
+        pass
+    return out
+
+
+def expand(fn: ast.AST, e: ast.expr | None, depth: int = 5) -> ast.expr | None:
+    """``e`` with every single-assignment local replaced by its defining expression (temporaries looked through)."""
+    if e is None:
+        return None
+    defs = single_defs(fn)
+    if not defs:
+        return e
+    import copy
+
+    class T(ast.NodeTransformer):
+        def __init__(self, d: int) -> None:
+            self.d = d
+
+        def visit_Name(self, n: ast.Name) -> ast.AST:
+            if isinstance(n.ctx, ast.Load) and n.id in defs and self.d > 0:
+                return T(self.d - 1).visit(copy.deepcopy(defs[n.id]))
+            return n
+
+    return T(depth).visit(copy.deepcopy(e))
+
+
+def X(fi: FuncInfo, node: ast.AST | None) -> str:
+    """Anonymised text of an expression with temporaries expanded (see ``expand`` and ``L``)."""
+    if node is None:
+        return ""
+    return anon_text(expand(fi.node, node), fi.node)
+
+
+def expand_all(fn: ast.AST, e: ast.expr | None, limit: int = 8) -> list[ast.expr]:
+    """Alternatives of ``e``: a local with several plain assignments (e.g. the result slot of an inlined helper) is
+    replaced by each of its definitions; single-assignment temporaries are expanded as in ``expand``."""
+    if e is None:
+        return []
+    e = expand(fn, e)
+    if isinstance(e, ast.Name) and isinstance(e.ctx, ast.Load):
+        defs = [v for st, tgt, v in stores(fn) if isinstance(tgt, ast.Name) and tgt.id == e.id and v is not None and isinstance(st, (ast.Assign, ast.AnnAssign))
+                and not (isinstance(st, ast.Assign) and isinstance(st.targets[0], (ast.Tuple, ast.List)))]
+        params = set()
+        if isinstance(fn, (ast.FunctionDef, ast.AsyncFunctionDef)):
+            params = {a.arg for a in [*fn.args.posonlyargs, *fn.args.args, *fn.args.kwonlyargs]}
+        if len(defs) > 1 and e.id not in params:
+            out: list[ast.expr] = []
+            for d in defs[:limit]:
+                if not (isinstance(d, ast.Name) and d.id == e.id):
+                    out += expand_all(fn, d, limit) if not any(isinstance(x, ast.Name) and x.id == e.id for x in ast.walk(d)) else [d]
+            return out[:limit]
+    return [e]
+
+
+def return_values(fn: ast.AST) -> list[ast.expr]:
+    """All value expressions the function can return (temporaries and inlined-helper result slots looked through)."""
+    out: list[ast.expr] = []
+    for r in walk_no_nested(fn):
+        if isinstance(r, ast.Return):
+            out += expand_all(fn, r.value) if r.value is not None else [ast.Constant(value=None)]
+    return out
+
+
+def names_from_calls(fn: ast.AST, callee_names: Iterable[str], index: int | None = None) -> set[str]:
+    """Locals assigned from a call to one of ``callee_names`` (last attribute / bare name); ``index`` selects the
+    position inside a tuple-unpacking target (None = plain assignment or any position)."""
+    want = set(callee_names)
+    out: set[str] = set()
+    for n in [fn, *walk_no_nested(fn)]:
+        if isinstance(n, (ast.Assign, ast.AnnAssign)) and isinstance(n.value, ast.Call):
+            f = n.value.func
+            nm = f.attr if isinstance(f, ast.Attribute) else (f.id if isinstance(f, ast.Name) else "")
+            if nm not in want:
+                continue
+            targets = n.targets if isinstance(n, ast.Assign) else [n.target]
+            for t in targets:
+                if isinstance(t, ast.Name) and index is None:
+                    out.add(t.id)
+                elif isinstance(t, (ast.Tuple, ast.List)):
+                    elts = t.elts if index is None else t.elts[index:index + 1] if -len(t.elts) <= index < len(t.elts) else []
+                    out |= {e.id for e in elts if isinstance(e, ast.Name)}
+    return out
+
+
+def call_name_of(c: ast.Call) -> str:
+    f = c.func
+    return f.attr if isinstance(f, ast.Attribute) else (f.id if isinstance(f, ast.Name) else "")
+
+
+def guarded_subscripts(fn: ast.AST, mapping_text: str) -> list[tuple[ast.Subscript, bool]]:
+    """Every load ``M[K]`` of the named mapping with: is it executed only when a test ``K in M`` was true?"""
+    g = build_cfg(fn)
+    out: list[tuple[ast.Subscript, bool]] = []
+    for n in g.nodes:
+        if n.ast is None:
+            continue
+        roots = [n.ast] if n.kind == "test" else header_exprs_of(n)
+        for root in roots:
+            for sub in ast.walk(root):
+                if isinstance(sub, ast.Subscript) and isinstance(sub.ctx, ast.Load) and ast.unparse(sub.value) == mapping_text:
+                    key = ast.unparse(sub.slice)
+                    ok = any(t.kind == "test" and isinstance(t.ast, ast.Compare) and len(t.ast.ops) == 1 and isinstance(t.ast.ops[0], ast.In)
+                             and ast.unparse(t.ast.left) == key and ast.unparse(t.ast.comparators[0]) == mapping_text and g.only_if(n.id, t.id, True) for t in g.nodes)
+                    out.append((sub, ok))
+    return out
+
+
+def header_exprs_of(n: Node) -> list[ast.AST]:
+    from .cfg import header_exprs
+
+    return header_exprs(n.ast) if n.ast is not None and isinstance(n.ast, ast.stmt) else ([n.ast] if n.ast is not None else [])
+
+
+def _def_nodes(g: CFG) -> dict[str, dict[int, ast.expr | None]]:
+    """name -> {cfg node id: defining value (None = opaque definition: loop target, unpacking, augmented, with/except)}."""
+    cached = getattr(g, "_xsa_defs", None)
+    if cached is not None:
+        return cached
+    out: dict[str, dict[int, ast.expr | None]] = {}
+    for n in g.nodes:
+        st = n.ast
+        if st is None or n.kind == "test":
+            continue
+        if n.kind == "for" and isinstance(st, (ast.For, ast.AsyncFor)):
+            for t in ast.walk(st.target):
+                if isinstance(t, ast.Name):
+                    out.setdefault(t.id, {})[n.id] = None
+            continue
+        if n.kind == "with" and isinstance(st, (ast.With, ast.AsyncWith)):
+            for it in st.items:
+                for t in ast.walk(it.optional_vars) if it.optional_vars is not None else []:
+                    if isinstance(t, ast.Name):
+                        out.setdefault(t.id, {})[n.id] = None
+            continue
+        if n.kind == "except" and isinstance(st, ast.ExceptHandler) and st.name:
+            out.setdefault(st.name, {})[n.id] = None
+            continue
+        if n.kind != "stmt":
+            continue
+        if isinstance(st, ast.Assign):
+            for t in st.targets:
+                if isinstance(t, ast.Name):
+                    out.setdefault(t.id, {})[n.id] = st.value
+                else:
+                    for x in ast.walk(t):
+                        if isinstance(x, ast.Name) and isinstance(x.ctx, ast.Store):
+                            out.setdefault(x.id, {})[n.id] = None
+        elif isinstance(st, ast.AnnAssign) and isinstance(st.target, ast.Name) and st.value is not None:
+            out.setdefault(st.target.id, {})[n.id] = st.value
+        elif isinstance(st, ast.AugAssign) and isinstance(st.target, ast.Name):
+            out.setdefault(st.target.id, {})[n.id] = None
+        if isinstance(st, ast.stmt):
+            for x in ast.walk(st):
+                if isinstance(x, ast.NamedExpr) and isinstance(x.target, ast.Name):
+                    out.setdefault(x.target.id, {})[n.id] = None
+    g._xsa_defs = out  # type: ignore[attr-defined]
+    return out
+
+
+def reaching_def(g: CFG, at: int, name: str) -> ast.expr | None:
+    """The value of the unique plain assignment of ``name`` that reaches CFG node ``at`` (None if ambiguous / opaque / a parameter)."""
+    defs = _def_nodes(g).get(name)
+    if not defs:
+        return None
+    found: set[int] = set()
+    seen: set[int] = set()
+    stack = [p for p, _ in g.pred[at]]
+    hit_entry = False
+    while stack:
+        n = stack.pop()
+        if n in seen:
+            continue
+        seen.add(n)
+        if n in defs:
+            found.add(n)
+            continue
+        if n == g.entry:
+            hit_entry = True
+        stack.extend(p for p, _ in g.pred[n])
+    if len(found) == 1 and not hit_entry:
+        return defs[next(iter(found))]
+    return None
+
+
+def expand_at(fi: FuncInfo, node: Node, e: ast.expr | None, depth: int = 4) -> ast.expr | None:
+    """``e`` as evaluated at CFG node ``node`` with locals replaced by their unique reaching definition (flow-sensitive)."""
+    if e is None or depth <= 0:
+        return e
+    import copy
+
+    g = build_cfg(fi.node)
+    defs = _def_nodes(g)
+
+    def subst(x: ast.expr, at: int, d: int) -> ast.expr:
+        class T(ast.NodeTransformer):
+            def visit_Name(self, n: ast.Name) -> ast.AST:
+                if isinstance(n.ctx, ast.Load) and n.id in defs and d > 0:
+                    found = _reaching_node(g, at, n.id)
+                    if found is not None and defs[n.id][found] is not None:
+                        return subst(copy.deepcopy(defs[n.id][found]), found, d - 1)
+                return n
+
+            def visit_Lambda(self, n):
+                return n
+
+        return T().visit(x)
+
+    return subst(copy.deepcopy(e), node.id, depth)
+
+
+def _reaching_node(g: CFG, at: int, name: str) -> int | None:
+    defs = _def_nodes(g).get(name)
+    if not defs:
+        return None
+    found: set[int] = set()
+    seen: set[int] = set()
+    stack = [p for p, _ in g.pred[at]]
+    hit_entry = False
+    while stack:
+        n = stack.pop()
+        if n in seen:
+            continue
+        seen.add(n)
+        if n in defs:
+            found.add(n)
+            continue
+        if n == g.entry:
+            hit_entry = True
+        stack.extend(p for p, _ in g.pred[n])
+    return next(iter(found)) if len(found) == 1 and not hit_entry else None
+
+
+def forms(fi: FuncInfo, node: Node, e: ast.expr | None) -> set[str]:
+    """Anonymised texts of ``e`` at increasing depths of (flow-sensitive) temporary expansion: a rule pattern may match any."""
+    if e is None:
+        return set()
+    out = {anon_text(e, fi.node)}
+    for d in (1, 2, 3, 4):
+        out.add(anon_text(expand_at(fi, node, e, d), fi.node))
+    return out
+
+
+def control_deps(fi: FuncInfo, target: ast.AST | Node) -> list[tuple[str, bool, Node]]:
+    """(anonymised test text, polarity, test node) for every atomic test the statement / node is control dependent on
+    (exact: removing that out-edge of the test makes the node unreachable).  Each test is listed once per expansion form."""
+    g = build_cfg(fi.node)
+    n = target if isinstance(target, Node) else g.node_of(target)
+    out: list[tuple[str, bool, Node]] = []
+    if n is None:
+        return out
+    for t in g.nodes:
+        if t.kind != "test" or t.ast is None:
+            continue
+        for pol in (True, False):
+            if g.only_if(n.id, t.id, pol):
+                for txt in sorted(forms(fi, t, t.ast)):
+                    out.append((txt, pol, t))
+    return out
+
+
+def dep_texts(fi: FuncInfo, target: ast.AST | Node, polarity: bool | None = None) -> set[str]:
+    return {t for t, pol, _ in control_deps(fi, target) if polarity is None or pol == polarity}
+
+
+def tests_like(fi: FuncInfo, *patterns: str) -> list[Node]:
+    """Atomic tests one of whose expansion forms equals one of the (``A``-normalised) patterns."""
+    g = build_cfg(fi.node)
+    want = {A(p) for p in patterns}
+    return [t for t in g.nodes if t.kind == "test" and t.ast is not None and forms(fi, t, t.ast) & want]
+
+
+def alternatives(fn: ast.AST, e: ast.expr | None) -> list[ast.expr]:
+    """Leaves of a value expression: temporaries expanded, ``a or b`` and ``x if c else y`` split into their operands."""
+    out: list[ast.expr] = []
+    for v in expand_all(fn, e):
+        if isinstance(v, ast.BoolOp) and isinstance(v.op, ast.Or):
+            for sub in v.values:
+                out += alternatives(fn, sub)
+        elif isinstance(v, ast.IfExp):
+            out += alternatives(fn, v.body) + alternatives(fn, v.orelse)
+        else:
+            out.append(v)
+    return out
